@@ -1,5 +1,5 @@
 ID = 'C13'
-UNITS = {'kd': dict(wrap='wrap.cc', shim=True, new_block=128, cxxflags=['-DVERIF_DEQUE_CAP=5'])}
+UNITS = {'kd': dict(wrap='wrap.cc', shim=True, new_block=128, cxxflags=['-DVERIF_DEQUE_CAP=5'], per_harness={'h_lookup.c': {'new_block': 64}, 'h_iter.c': {'new_block': 64}, 'h_erase_iter.c': {'new_block': 64}})}
 BOUNDS = 'TODO'
 STUBS = []
 OUTSIDE = []
@@ -7,8 +7,12 @@ ASSUMPTIONS = []
 
 def queries(tier):
     qs = []
-    cells = [(0, 0), (1, 0), (1, 1), (2, 1), (3, 0), (3, 1)]
-    for p, e in cells:
-        qs.append(dict(name='hist_p%d_e%d' % (p, e), unit='kd', harness='h_hist.c', defs={'P': p, 'E': e}, unwind=7, timeout=1500, mem_gb=12,
+    cells = [(0, 0), (1, 0), (1, 1), (2, 1), (3, 0), (3, 1)] + ([(2, 2), (3, 2), (4, 0), (4, 1), (4, 2)] if tier == 'thorough' else [])
+    for what in ('lookup', 'box', 'iter'):
+        for p, e in cells:
+            qs.append(dict(name='%s_p%d_e%d' % (what, p, e), unit='kd', harness='h_%s.c' % what, defs={'P': p, 'E': e}, unwind=p + 2, timeout=1500, mem_gb=12,
                        object_bits=12, desc='KDTree history', bounds='p=%d e=%d' % (p, e)))
+    for p in ((0, 1, 2, 3) if tier == 'quick' else (0, 1, 2, 3, 4)):
+        qs.append(dict(name='erase_iter_p%d' % p, unit='kd', harness='h_erase_iter.c', defs={'P': p}, unwind=p + 2, unwindset='', timeout=1500, mem_gb=12,
+                       object_bits=12, desc='KDTree erase_advance', bounds='p=%d' % p))
     return qs
